@@ -37,6 +37,7 @@ def decode(data: bytes) -> dict:
             case["events"].append({"e": "disc", "c": c, "how": d.pick(["close", "eof", "abort"])})
     case["stop_at"] = d.i(0, len(case["events"]))
     case["cli"] = d.p(0.04)
+    case["restart"] = d.p(0.3)
     return case
 
 
@@ -129,6 +130,7 @@ class C19Engine(Engine):
                 port = server._server.sockets[0].getsockname()[1]
 
             async def open_conn():
+                nonlocal port
                 if case["transport"] == "tcp":
                     return await asyncio.wait_for(asyncio.open_connection("127.0.0.1", port), BOUND)
                 return await asyncio.wait_for(asyncio.open_unix_connection(path), BOUND)
@@ -287,6 +289,49 @@ class C19Engine(Engine):
                 fail("stop/address-still-accepts-connections", "")
             if case["transport"] == "unix" and os.path.exists(path):
                 fail("stop/unix-socket-file-left-behind", path)
+            if not case.get("restart"):
+                return
+            # the same server object is started again: it must serve again, and stop again
+            labels.add("restart")
+            try:
+                task2 = await asyncio.wait_for(server.serve_forever(), BOUND)
+            except Exception as e:
+                fail("restart/serve_forever-failed", repr(e))
+                return
+            await asyncio.sleep(0)
+            if task2.done() or not server.is_serving():
+                fail("restart/not-serving", f"task done={task2.done()} is_serving={server.is_serving()}")
+                return
+            if case["transport"] == "tcp":
+                port = server._server.sockets[0].getsockname()[1]
+            try:
+                r, w = await open_conn()
+                w.write(json.dumps({"terminal_width": 80}).encode() + b"\n")
+                await w.drain()
+                name = await asyncio.wait_for(r.readline(), BOUND)
+                if name != b"TaskPool-S\n":
+                    fail("restart/handshake", repr(name))
+                w.write(b"num-running\n")
+                await w.drain()
+                rep = await asyncio.wait_for(r.readline(), BOUND)
+                if rep != b"0\n":
+                    fail("restart/command", repr(rep))
+                w.close()
+                await asyncio.wait_for(w.wait_closed(), BOUND)
+            except (ConnectionError, OSError, asyncio.TimeoutError) as e:
+                fail("restart/client-not-served", repr(e))
+            task2.cancel()
+            try:
+                await asyncio.wait_for(asyncio.shield(task2), BOUND)
+            except asyncio.TimeoutError:
+                state["inconclusive"] = "restarted serving task slow to complete"
+                return
+            except asyncio.CancelledError:
+                pass
+            if server.is_serving():
+                fail("restart/still-serving-after-stop", "")
+            if case["transport"] == "unix" and os.path.exists(path):
+                fail("restart/unix-socket-file-left-behind", path)
 
         try:
             _, out, err, error = run_in_fresh_loop(main)
